@@ -703,6 +703,19 @@ class Gen:
                 for ln in lines[comp_of[s2]]:
                     if ln["name"] == f"d{s2}_dt":
                         ln["expr"] = ("bin", "+", ln["expr"], ("var", q))
+        if (self.allow_rel_arith and not self.smooth_only and avail and rng.random() < getattr(self, "p_indicator", 0.12)
+                and "ind_a" not in names and "ind_b" not in names):
+            # intermediates that ARE a relation / a connective (numbers 1 or 0 for whatever reads them), read by a
+            # state derivative as a sum, a difference and a negation (a numpy bool is not a number: True + True is True)
+            pool = avail + live
+            lines[rng.choice(comps)].append({"name": "ind_a", "expr": self.rel(pool, 1), "comment": None})
+            lines[rng.choice(comps)].append({"name": "ind_b", "expr": self.rel(pool, rng.choice([1, 2])), "comment": None})
+            comb = rng.choice([("bin", "+", ("var", "ind_a"), ("var", "ind_b")), ("bin", "-", ("var", "ind_a"), ("var", "ind_b")),
+                               ("bin", "+", ("neg", ("var", "ind_a")), ("bin", "*", ("num", "3"), ("var", "ind_b")))])
+            s0 = rng.choice(states)
+            for ln in lines[comp_of[s0]]:
+                if ln["name"] == f"d{s0}_dt":
+                    ln["expr"] = ("bin", "+", ln["expr"], comb)
         blocks = []
         for c in comps:
             sts = [s for s in states if comp_of[s] == c]
